@@ -160,7 +160,17 @@ impl Sched {
     /// of scheduling decisions, used to place PCT change points.
     pub fn draw(rng: &mut Rng, est_steps: u64) -> Self {
         let seed = rng.next_u64();
-        match rng.weighted(&[30, 20, 35, 15]) {
+        // KMSIM_SCHED_ONLY=random|sticky|pct|stall restricts the draw to one
+        // kind (used to measure what each scheduler contributes)
+        let forced = match std::env::var("KMSIM_SCHED_ONLY").ok().as_deref() {
+            Some("random") => Some(0),
+            Some("sticky") => Some(1),
+            Some("pct") => Some(2),
+            Some("stall") => Some(3),
+            _ => None,
+        };
+        let drawn = rng.weighted(&[30, 20, 35, 15]);
+        match forced.unwrap_or(drawn) {
             0 => Sched {
                 kind: "random".into(),
                 seed,
